@@ -26,7 +26,7 @@ func init() {
 		NotDecided:  []string{"exactly-once across interleavings of subscribe/close with an in-flight change", "histories as such"},
 		NeedsCG:     true,
 		Rules: []core.Rule{
-			{ID: "C10-R1", Title: "fan-out guards: originator skipped, session present, subscribed to this characteristic, one write per recipient", Decides: "exactly the subscribed others receive exactly one event", Floor: 5, Run: c10r1},
+			{ID: "C10-R1", Title: "fan-out guards: originator skipped, session present, subscribed to this characteristic, one write per recipient", Decides: "exactly the subscribed others receive exactly one event", Floor: 5, Run: func(c *core.Ctx) { c10r1(c); eventNotInsideResponse(c) }},
 			{ID: "C10-R2", Title: "callback wiring for every characteristic", Decides: "every change of every characteristic reaches the fan-out with the right originator", Floor: 5, Run: c10r2},
 			{ID: "C10-R3", Title: "unchanged value => no callbacks; compared value = stored value", Decides: "no event when the value did not change", Floor: 3, Run: c10r3},
 			{ID: "C10-R4", Title: "subscription state per session, keyed by the characteristic object", Decides: "never-subscribed / unsubscribed connections receive none", Floor: 6, Run: c10r4},
@@ -380,6 +380,7 @@ func c10r2(c *core.Ctx) {
 
 func c10r3(c *core.Ctx) {
 	charDispatchPolarity(c)
+	compareAndStoreAtomic(c)
 	p := c.P
 	f := p.Func("characteristic", "(*Characteristic).updateValue")
 	if f == nil {
@@ -594,11 +595,46 @@ func c10r5(c *core.Ctx) {
 	})
 	good := del != nil
 	if good {
-		core.Instrs(f, func(i ssa.Instruction) {
-			if r, ok := i.(*ssa.Return); ok && !instrDominates(del, r) {
+		// every path to a return removes the session — or has established that the session stored under this connection's key is
+		// not this connection's (none, or that of a newer connection which took the key over: C13-R1 close-removes-own-session)
+		isLookup := func(v ssa.Value) bool {
+			return core.AnySource(v, func(sv ssa.Value) bool {
+				call, ok := sv.(*ssa.Call)
+				return ok && core.IsInvoke(call, qContext, "GetSessionForConnection")
+			})
+		}
+		notOwn := core.AnyFact(core.IsNilFact(isLookup), core.CmpFact(func(x, y ssa.Value) (bool, bool) {
+			isSessConn := func(v ssa.Value) bool {
+				found := false
+				walkOperands(v, 4, func(o ssa.Value) {
+					if call, ok := o.(*ssa.Call); ok && core.IsInvoke(call, qSession, "Connection") {
+						found = true
+					}
+				})
+				return found
+			}
+			if isSessConn(x) || isSessConn(y) {
+				return false, true
+			}
+			return false, false
+		}))
+		okEnum := core.EnumPaths(f, 2, 5000, func(pa core.Path) {
+			if pa.Returns() == nil {
+				return
+			}
+			removed := false
+			pa.Instrs(func(i ssa.Instruction) {
+				if i == del {
+					removed = true
+				}
+			})
+			if !removed && !pathEstablishes(pa, notOwn) {
 				good = false
 			}
 		})
+		if !okEnum {
+			good = false
+		}
 	}
 	c.Check(good, "close-removes-session@"+fname(f), f.Pos(), "every return of Close is preceded by DeleteSessionForConnection for its own socket", "Close can return without removing the session: the closed connection stays in the recipient set")
 	// delete uses the same key function as set/get
